@@ -576,6 +576,8 @@ def default_row_labels(ctx, rule):
                     loops.append((fi_, lp))
         if loops:
             break
+    if not loops and _recursive_row_labels(ctx, rule):
+        return
     if not loops:
         raise AnalysisError('the loop producing default row labels was not found')
     pi, lp = loops[-1]
@@ -655,3 +657,41 @@ def default_row_labels(ctx, rule):
                 f"{reversals} reversal(s) before the label is stored",
            why="labels beyond 'Z' come out reversed ('BA' instead of 'AB'): row 28 is addressed by the wrong label",
            key='row label letter order')
+
+
+def _recursive_row_labels(ctx, rule):
+    """The same numbering written recursively: `q, r = divmod(n, 26); return letter(r) if q == 0 else name(q ..) + letter(r)`.
+    Bijective base 26 has no zero digit: on the way to the next letter the number is decremented exactly once - either
+    before it is divided (`divmod(n - 1, 26)`, n counted from 1) or when the quotient is carried (`name(q - 1)`, n counted
+    from 0).  Neither or both is plain base 26 ('BA' after 'Z') or skips a letter."""
+    model = ctx.model.plain()
+    for fi in model.functions('pyplate/pyplate.py'):
+        if fi.parent is not None:
+            continue
+        src = unparse(fi.node, 4000)
+        if '26' not in src or 'chr(' not in src:
+            continue
+        rec = [c for c in ast.walk(fi.node) if isinstance(c, ast.Call) and
+               ((isinstance(c.func, ast.Attribute) and c.func.attr == fi.name) or (isinstance(c.func, ast.Name) and c.func.id == fi.name))]
+        if not rec or any(isinstance(x, (ast.For, ast.While)) for x in ast.walk(fi.node)):
+            continue
+        divs = [c for c in ast.walk(fi.node) if (isinstance(c, ast.Call) and isinstance(c.func, ast.Name) and c.func.id == 'divmod' and
+                                                 len(c.args) == 2 and isinstance(c.args[1], ast.Constant) and c.args[1].value == 26) or
+                (isinstance(c, ast.BinOp) and isinstance(c.op, ast.FloorDiv) and isinstance(c.right, ast.Constant) and c.right.value == 26)]
+        if not divs:
+            continue
+
+        def decremented(e):
+            return isinstance(e, ast.BinOp) and isinstance(e.op, ast.Sub) and isinstance(e.right, ast.Constant) and e.right.value == 1
+        dividend = divs[0].args[0] if isinstance(divs[0], ast.Call) else divs[0].left
+        before = decremented(dividend)
+        carried = all(c.args and decremented(c.args[0]) for c in rec)
+        none_carried = not any(c.args and decremented(c.args[0]) for c in rec)
+        ok = (before and none_carried) or (carried and not before)
+        ctx.ob(rule, ctx.model.funcs.get(fi.qualname, fi), rec[0].lineno,
+               f"{fi.qualname}: the number is decremented exactly once per letter (bijective base 26)", ok,
+               fact=f"dividend `{unparse(dividend, 40)}` decremented: {before}; carried quotient decremented: {carried}",
+               why="plain base 26 names the row after 'Z' 'BA' instead of 'AA': labels beyond the 26th row address other rows than documented",
+               key='recursive row labels: decrement')
+        return True
+    return False
